@@ -183,6 +183,35 @@ impl From<&str> for Nested {
     }
 }
 
+pub mod fake {
+    //! A user type that merely happens to be called `String`: it derefs to `str` but has a `Display` of its own.
+    use core::fmt;
+    #[derive(Clone, Debug, PartialEq, Default)]
+    pub struct String(pub std::string::String);
+    impl From<&str> for String {
+        fn from(s: &str) -> String {
+            String(s.to_string())
+        }
+    }
+    impl fmt::Display for String {
+        fn fmt(&self, f: &mut fmt::Formatter<'_>) -> fmt::Result {
+            // deliberately not what `str` would print, and it ignores the caller's padding
+            write!(f, "<{}>", self.0)
+        }
+    }
+    impl AsRef<str> for String {
+        fn as_ref(&self) -> &str {
+            &self.0
+        }
+    }
+    impl core::ops::Deref for String {
+        type Target = str;
+        fn deref(&self) -> &str {
+            &self.0
+        }
+    }
+}
+
 /// Custom parse error for enums that declare `parse_err_ty` / `parse_err_fn`.
 #[derive(Debug, Clone, PartialEq)]
 pub struct MyErr(pub String);
@@ -197,6 +226,7 @@ pub enum InnerVal {
     Str(String),
     BoxStr(Box<str>),
     RcStr(std::rc::Rc<str>),
+    Fake(fake::String),
     Static(&'static str),
     U64(u64),
     I32(i32),
@@ -211,6 +241,7 @@ impl InnerVal {
             InnerVal::Str(s) => s,
             InnerVal::BoxStr(s) => s,
             InnerVal::RcStr(s) => s,
+            InnerVal::Fake(s) => s,
             InnerVal::Static(s) => s,
             InnerVal::U64(v) => v,
             InnerVal::I32(v) => v,
@@ -225,6 +256,7 @@ impl InnerVal {
             InnerVal::Str(s) => Some(s.clone()),
             InnerVal::BoxStr(s) => Some(s.to_string()),
             InnerVal::RcStr(s) => Some(s.to_string()),
+            InnerVal::Fake(s) => Some(s.0.clone()),
             InnerVal::Static(s) => Some(s.to_string()),
             InnerVal::Nested(n) => Some(n.name().to_string()),
             _ => None,
@@ -245,6 +277,7 @@ impl InnerVal {
             "string" => InnerVal::Str(String::pick(a)),
             "boxstr" => InnerVal::BoxStr(<Box<str>>::pick(a)),
             "rcstr" => InnerVal::RcStr(std::rc::Rc::from(pick_str(a))),
+            "fakestring" => InnerVal::Fake(fake::String(pick_str(a).to_string())),
             "static" => InnerVal::Static(pick_str(a)),
             "u64" => InnerVal::U64(u64::pick(a)),
             "i32" => InnerVal::I32(i32::pick(a)),
@@ -765,6 +798,7 @@ pub fn exec(case: &Case, leg: &Leg, mut stats: Option<&mut Stats>, keep_log: boo
                         InnerVal::Str(s) => Some(s.clone()),
                         InnerVal::BoxStr(s) => Some(s.to_string()),
                         InnerVal::RcStr(s) => Some(s.to_string()),
+                        InnerVal::Fake(s) => Some(s.0.clone()),
                         _ => None,
                     };
                     if let Some(h) = held {
